@@ -291,8 +291,8 @@ theorem ends_of_chain {cfg : Config} {a : Leaf} {rest : List Leaf} {e : Edge} {B
     subst he'
     simpa [leafOK] using hb
 
-theorem regOK_of_fits {cfg : Config} {c : String} {r : RegDesc} (hok : regClassOK cfg c = true)
-    (hm : ∃ rc, cfg.regClasses.find? (·.name == c) = some rc ∧ r ∈ rc.regs) : regOK r = true := by
+theorem regOK_of_fits {cfg : Config} {c : Nat} {r : RegDesc} (hok : regClassOK cfg c = true)
+    (hm : ∃ rc, cfg.regClasses[c]? = some rc ∧ r ∈ rc.regs) : regOK r = true := by
   obtain ⟨rc, hf, hr⟩ := hm
   simp only [regClassOK, hf, List.all_eq_true] at hok
   exact hok r hr
@@ -437,8 +437,8 @@ theorem lex_render_eq_tokens (cfg : Config) (ls : List Leaf) (vs : List Val)
 
 /-! ### the driver's `expandChoice` selects one of the flattenings `expand` enumerates -/
 
-theorem headChoice_mem {subC : List String → List Nat → Option (List Leaf × List Nat)}
-    {subE : List String → List (List Leaf)}
+theorem headChoice_mem {subC : List Nat → List Nat → Option (List Leaf × List Nat)}
+    {subE : List Nat → List (List Leaf)}
     (hsub : ∀ opts ch ls ch', subC opts ch = some (ls, ch') → ls ∈ subE opts)
     (e : Elem) (ch : List Nat) (l : List Leaf) (c : List Nat)
     (h : headChoice subC e ch = some (l, c)) : l ∈ headLeaves subE e := by
@@ -454,8 +454,8 @@ theorem headChoice_mem {subC : List String → List Nat → Option (List Leaf ×
     | other d => simp [headChoice] at h; simp [headLeaves, h.1]
     | cons opts => exact hsub opts ch l c h
 
-theorem chooseElems_mem {subC : List String → List Nat → Option (List Leaf × List Nat)}
-    {subE : List String → List (List Leaf)}
+theorem chooseElems_mem {subC : List Nat → List Nat → Option (List Leaf × List Nat)}
+    {subE : List Nat → List (List Leaf)}
     (hsub : ∀ opts ch ls ch', subC opts ch = some (ls, ch') → ls ∈ subE opts) :
     ∀ es ch ls ch', chooseElems subC es ch = some (ls, ch') → ls ∈ expandElems subE es := by
   intro es
@@ -503,5 +503,27 @@ theorem expandChoice_mem (tab : List SynDesc) :
         cases hl : lookup tab o with
         | none => simp [hl] at hs
         | some d => simp only [hl] at hs ⊢; exact ih _ _ _ _ hs
+
+/-- the cheap table check implies the semantic one -/
+theorem wellSpaced_of_fast {cfg : Config} {ls : List Leaf} (hr : regsOK cfg = true)
+    (h : wellSpacedFast cfg ls = true) : wellSpaced cfg ls = true := by
+  simp only [wellSpacedFast, wellSpaced, Bool.and_eq_true, List.all_eq_true] at h ⊢
+  refine ⟨?_, h.2⟩
+  intro l hl
+  have := h.1 l hl
+  cases l with
+  | reg c =>
+    simp only [leafOKFast, decide_eq_true_eq] at this
+    simp only [leafOK, regClassOK]
+    have hc : cfg.regClasses[c]? = some cfg.regClasses[c] := List.getElem?_eq_getElem this
+    rw [hc]
+    simp only [regsOK, List.all_eq_true] at hr
+    simpa [List.all_eq_true] using hr _ (List.getElem_mem this)
+  | word s => simpa [leafOK, leafOKFast] using this
+  | ws s => simpa [leafOK, leafOKFast] using this
+  | glyph c => simpa [leafOK, leafOKFast] using this
+  | int => rfl
+  | label => rfl
+  | other d => simp [leafOKFast] at this
 
 end Proofs.AsmSyn
